@@ -305,13 +305,13 @@ Theorem bs_fill_buf_refines st r scr :
   | SFillOk n st' r' =>
       bw_fill_buf (abs_of st) r = FillOk n (abs_of st') r' /\ bs_inv st' /\
       length (s_buf st') = length (s_buf st) /\ s_owned st' = s_owned st /\
-      (if fill_early st then st' = st else s_start st' = 0)
+      (if fill_early st then st' = st /\ r' = r else s_start st' = 0)
   | SFillIo st' r' =>
       bw_fill_buf (abs_of st) r = FillIo (abs_of st') r' /\ bs_inv st' /\
       length (s_buf st') = length (s_buf st) /\ s_owned st' = s_owned st /\
       fill_early st = false /\ s_start st' = 0
   | SFillFull st' r' =>
-      bw_fill_buf (abs_of st) r = FillFull (abs_of st') r' /\ st' = st /\ fill_early st = true
+      bw_fill_buf (abs_of st) r = FillFull (abs_of st') r' /\ st' = st /\ fill_early st = true /\ r' = r
   | SFillCrash _ => False
   end.
 Proof.
@@ -454,11 +454,11 @@ Proof.
     destruct (bs_fill_buf st r scr) as [n st' r'|st' r'|st' r'|s].
     + destruct R as (R1 & R2 & R3 & R4 & R5). rewrite R1. cbn [fst snd]. rewrite (bs_observe_abs _ st' R2).
       split; [|split; [exact R2|split; assumption]]. destruct (fill_early st).
-      * subst st'. reflexivity.
+      * destruct R5 as [-> ->]. reflexivity.
       * unfold absst_of. now rewrite (behind_start0 st' R5).
     + destruct R as (R1 & R2 & R3 & R4 & R5 & R6). rewrite R1, R5. cbn [fst snd]. rewrite (bs_observe_abs _ st' R2).
       split; [|split; [exact R2|split; assumption]]. unfold absst_of. now rewrite (behind_start0 st' R6).
-    + destruct R as (R1 & R2 & R3). rewrite R1, R3. subst st'. cbn [fst snd]. rewrite (bs_observe_abs _ st H).
+    + destruct R as (R1 & R2 & R3 & R4). rewrite R1, R3. subst st'. cbn [fst snd]. rewrite (bs_observe_abs _ st H).
       split; [reflexivity|split; [exact H|split; reflexivity]].
     + contradiction.
   - (* advance, resolved *)
@@ -501,4 +501,298 @@ Proof.
   - (* get, raw *)
     rewrite <- (bs_get_refines st _ _ H).
     destruct (bs_get st _ _); cbn [fst snd]; try rewrite (bs_observe_abs _ st H); (split; [reflexivity|split; [exact H|split; reflexivity]]).
+Qed.
+
+(* ---------- op lists and adaptive clients ---------- *)
+Theorem bs_run_refines_inv st r ops : bs_inv st -> bs_run st r ops = abs_run (absst_of st) r ops.
+Proof.
+  revert st r. induction ops as [|o ops IH]; intros st r H; [reflexivity|].
+  cbn [bs_run abs_run]. destruct (bs_step_refines st r o H) as (E & Hi & _). rewrite E. unfold step_st in Hi.
+  destruct (bs_step st r o) as [[ob st'] r']. cbn [fst snd] in Hi.
+  destruct (is_crash_obs ob); [reflexivity|]. f_equal. apply IH. exact Hi.
+Qed.
+
+Lemma bs_final_inv st r ops :
+  bs_inv st -> bs_inv (bs_final st r ops) /\ length (s_buf (bs_final st r ops)) = length (s_buf st) /\
+               s_owned (bs_final st r ops) = s_owned st.
+Proof.
+  revert st r. induction ops as [|o ops IH]; intros st r H; [auto|].
+  cbn [bs_final]. destruct (bs_step_refines st r o H) as (_ & Hi & Hl & Ho). unfold step_st in *.
+  destruct (bs_step st r o) as [[ob st'] r']. cbn [fst snd] in *.
+  destruct (is_crash_obs ob); [auto|]. destruct (IH st' r' Hi) as (I1 & I2 & I3).
+  split; [exact I1|]. split; congruence.
+Qed.
+
+(* MAIN REFINEMENT THEOREM: a window built over ANY buffer (dirty, recycled, scribbled on) behaves,
+   under every list of operations and every Read schedule, like the window-level model of BufWin.v,
+   in which there is no storage at all *)
+Theorem bs_run_refines buf r ops : bs_run (bs_build buf) r ops = abs_run (abs_build (length buf)) r ops.
+Proof. rewrite <- absst_of_build. apply bs_run_refines_inv, bs_build_inv. Qed.
+
+Theorem bs_run_refines_slice d r ops : bs_run (bs_from_slice d) r ops = abs_run (abs_from_slice d) r ops.
+Proof. rewrite <- absst_of_from_slice. apply bs_run_refines_inv, bs_from_slice_inv. Qed.
+
+(* stale bytes are unobservable: two buffers of the same length cannot be told apart *)
+Theorem bs_run_buffer_independent buf1 buf2 r ops :
+  length buf1 = length buf2 -> bs_run (bs_build buf1) r ops = bs_run (bs_build buf2) r ops.
+Proof. intros E. now rewrite !bs_run_refines, E. Qed.
+
+(* a buffer handed back by a previous window (TokenReader::into_parts) is as good as a fresh one *)
+Theorem bs_run_recycled buf0 r1 ops1 r2 ops2 :
+  bs_run (bs_build (s_buf (bs_final (bs_build buf0) r1 ops1))) r2 ops2
+  = bs_run (bs_new (length buf0)) r2 ops2.
+Proof.
+  apply bs_run_buffer_independent.
+  destruct (bs_final_inv (bs_build buf0) r1 ops1 (bs_build_inv buf0)) as (_ & E & _).
+  rewrite E. cbn [bs_build s_buf]. now rewrite repeat_length.
+Qed.
+
+Theorem bs_drive_refines_inv fuel c st r seen :
+  bs_inv st -> bs_drive fuel c st r seen = abs_drive fuel c (absst_of st) r seen.
+Proof.
+  revert st r seen. induction fuel as [|f IH]; intros st r seen H; [reflexivity|].
+  cbn [bs_drive abs_drive]. destruct (c seen) as [o|]; [|reflexivity].
+  destruct (bs_step_refines st r o H) as (E & Hi & _). rewrite E. unfold step_st in Hi.
+  destruct (bs_step st r o) as [[ob st'] r']. cbn [fst snd] in Hi.
+  destruct (is_crash_obs ob); [reflexivity|]. apply IH. exact Hi.
+Qed.
+
+(* the same for ANY client that picks its next operation from what it has seen so far *)
+Theorem bs_drive_refines fuel c buf r :
+  bs_drive fuel c (bs_build buf) r [] = abs_drive fuel c (abs_build (length buf)) r [].
+Proof. rewrite <- absst_of_build. apply bs_drive_refines_inv, bs_build_inv. Qed.
+
+Theorem bs_drive_buffer_independent fuel c buf1 buf2 r :
+  length buf1 = length buf2 -> bs_drive fuel c (bs_build buf1) r [] = bs_drive fuel c (bs_build buf2) r [].
+Proof. intros E. now rewrite !bs_drive_refines, E. Qed.
+
+(* ---------- safety of whole runs ---------- *)
+Definition resolved (o : op) : bool :=
+  match o with OFill _ | OAdv _ | OAdvTo _ | OGet _ _ => true | _ => false end.
+
+Lemma bs_step_resolved_safe st r o :
+  bs_inv st -> resolved o = true -> is_crash_obs (fst (fst (bs_step st r o))) = false.
+Proof.
+  intros H Hr. pose proof H as [Hs He]. pose proof (window_length st H) as HL.
+  destruct o as [scr|k|k|i j|k|p|i j]; try discriminate; cbn [bs_step].
+  - pose proof (bs_fill_buf_refines st r scr H) as R.
+    destruct (bs_fill_buf st r scr) as [n st' r'|st' r'|st' r'|s]; [| | |contradiction]; cbn [fst].
+    + destruct R as (_ & R2 & _). rewrite (bs_observe_abs _ _ R2). reflexivity.
+    + destruct R as (_ & R2 & _). rewrite (bs_observe_abs _ _ R2). reflexivity.
+    + destruct R as (_ & -> & _). rewrite (bs_observe_abs _ _ H). reflexivity.
+  - rewrite (bs_window_len_ok st H). pose proof (mod_le k (length (window st))) as Hm.
+    destruct (abs_advance_of st _ H Hm) as (_ & A2 & _). rewrite A2. cbn [fst].
+    rewrite bs_observe_abs by (apply adv_to_inv; [exact H|lia]). reflexivity.
+  - rewrite (bs_window_len_ok st H). pose proof (mod_le k (length (window st))) as Hm.
+    destruct (abs_advance_of st _ H Hm) as (_ & _ & A3). rewrite A3. cbn [fst].
+    rewrite bs_observe_abs by (apply adv_to_inv; [exact H|lia]). reflexivity.
+  - set (a := Nat.modulo i (s_end st + 1)). set (b := a + Nat.modulo j (s_end st - a + 1)).
+    assert (Ha : a <= s_end st) by apply mod_le.
+    assert (Hb : b <= s_end st) by (pose proof (mod_le j (s_end st - a)); unfold b; lia).
+    assert (Hok : is_ok (bs_get st a b) = true) by (apply bs_get_ok_iff; [exact H|unfold b; lia]).
+    destruct (bs_get st a b); try discriminate. cbn [fst]. rewrite (bs_observe_abs _ _ H). reflexivity.
+Qed.
+
+(* INDEX-LEVEL SAFETY of buffer.rs under its contract: an op list whose advance / advance_to / get
+   stay inside the window (as both readers' do) never makes an offset leave the buffer *)
+Theorem bs_run_safe_inv st r ops :
+  bs_inv st -> forallb resolved ops = true -> forallb (fun ob => negb (is_crash_obs ob)) (bs_run st r ops) = true.
+Proof.
+  revert st r. induction ops as [|o ops IH]; intros st r H Hr; [reflexivity|].
+  cbn [forallb] in Hr. apply andb_prop in Hr. destruct Hr as [Ho Hr].
+  cbn [bs_run]. pose proof (bs_step_resolved_safe st r o H Ho) as Hc.
+  destruct (bs_step_refines st r o H) as (_ & Hi & _). unfold step_st in Hi.
+  destruct (bs_step st r o) as [[ob st'] r']. cbn [fst snd] in *. rewrite Hc. cbn [forallb]. rewrite Hc. cbn [negb andb].
+  apply IH; assumption.
+Qed.
+
+Theorem bs_run_safe buf r ops :
+  forallb resolved ops = true -> forallb (fun ob => negb (is_crash_obs ob)) (bs_run (bs_build buf) r ops) = true.
+Proof. apply bs_run_safe_inv, bs_build_inv. Qed.
+
+Theorem bs_run_safe_slice d r ops :
+  forallb resolved ops = true -> forallb (fun ob => negb (is_crash_obs ob)) (bs_run (bs_from_slice d) r ops) = true.
+Proof. apply bs_run_safe_inv, bs_from_slice_inv. Qed.
+
+(* ---------- position / stream law ---------- *)
+(* the data handed out by the Read = bytes before the buffer start ++ visible buffer ++ not yet read *)
+Definition bs_stream2 (input : bytes) (st : store) (r : rd) : Prop :=
+  exists pre, input = pre ++ visible st ++ rest r /\ length pre = s_prior st.
+
+Lemma stream2_build buf input sched : bs_stream2 input (bs_build buf) (mkrd input sched 0 0).
+Proof. exists []. split; reflexivity. Qed.
+
+Lemma stream2_stream input st r : bs_inv st -> bs_stream2 input st r -> stream_inv input (abs_of st) r.
+Proof.
+  intros H (pre & E & L). exists (pre ++ behind st). cbn [win abs_of]. split.
+  - rewrite E, (visible_split st H), <- !app_assoc. reflexivity.
+  - unfold bw_position. cbn [prior consumed abs_of]. rewrite app_length, (behind_length st H). lia.
+Qed.
+
+Lemma stream_stream2 input st r : s_start st = 0 -> stream_inv input (abs_of st) r -> bs_stream2 input st r.
+Proof.
+  intros Z (pre & E & L). exists pre. unfold bw_position in L. cbn [win prior consumed abs_of] in *. split; [|lia].
+  rewrite E. unfold window, visible. now rewrite Z, Nat.sub_0_r.
+Qed.
+
+Lemma visible_length st : bs_inv st -> length (visible st) = s_end st.
+Proof. intros [H1 H2]. unfold visible. rewrite firstn_length. lia. Qed.
+
+(* window() is the slice of the stream at position() *)
+Theorem bs_window_stream_law input st r :
+  bs_inv st -> bs_stream2 input st r ->
+  window st = segment input (bs_position st) (length (window st)) /\
+  bs_position st + length (window st) + length (rest r) = length input.
+Proof.
+  intros H S. destruct (stream2_stream input st r H S) as (pre & E & L). cbn [win abs_of] in E.
+  rewrite bs_position_abs, <- L, E. split; [symmetry; apply segment_app_mid|]. rewrite !app_length. lia.
+Qed.
+
+(* get(i..j) is the slice of the stream at prior_reads + i *)
+Theorem bs_get_stream_law input st r i j bs :
+  bs_inv st -> bs_stream2 input st r -> bs_get st i j = Ok bs -> bs = segment input (s_prior st + i) (j - i).
+Proof.
+  intros H (pre & E & L) G. pose proof (visible_length st H) as HV.
+  assert (Hij : i <= j <= s_end st) by (apply (bs_get_ok_iff st i j H); rewrite G; reflexivity).
+  rewrite (bs_get_refines st i j H) in G. unfold abs_get in G. rewrite (abs_end_of st H) in G.
+  destruct (Nat.ltb_spec (s_end st) j); [lia|]. destruct (Nat.ltb_spec j i); [lia|].
+  inversion G; subst bs; clear G. unfold absst_of. cbn [a_behind a_win abs_of win]. rewrite <- (visible_split st H).
+  unfold segment. rewrite E, <- L, skipn_plus, skipn_app, skipn_all, Nat.sub_diag. cbn [skipn app].
+  rewrite skipn_app. rewrite firstn_app_le by (rewrite skipn_length; lia). reflexivity.
+Qed.
+
+(* what a non-fill op can do to the window: move start forward inside it, nothing else *)
+Lemma adv_to_self st : adv_to st (s_start st) = st.
+Proof. destruct st; reflexivity. Qed.
+
+Lemma bs_step_nonfill st r o :
+  bs_inv st ->
+  match o with
+  | OFill _ => True
+  | _ => snd (bs_step st r o) = r /\
+         exists p, s_start st <= p <= s_end st /\ step_st (bs_step st r o) = adv_to st p
+  end.
+Proof.
+  intros H. pose proof H as [Hs He]. pose proof (window_length st H) as HL. unfold step_st.
+  assert (Hself : exists p, s_start st <= p <= s_end st /\ st = adv_to st p)
+    by (exists (s_start st); split; [lia|symmetry; apply adv_to_self]).
+  destruct o as [scr|k|k|i j|k|p|i j]; cbn [bs_step]; [exact I| | | | | |].
+  - rewrite (bs_window_len_ok st H). pose proof (mod_le k (length (window st))) as Hm.
+    destruct (abs_advance_of st _ H Hm) as (_ & A2 & _). rewrite A2. cbn [fst snd]. split; [reflexivity|].
+    eexists; split; [|reflexivity]. lia.
+  - rewrite (bs_window_len_ok st H). pose proof (mod_le k (length (window st))) as Hm.
+    destruct (abs_advance_of st _ H Hm) as (_ & _ & A3). rewrite A3. cbn [fst snd]. split; [reflexivity|].
+    eexists; split; [|reflexivity]. lia.
+  - destruct (bs_get st _ _); cbn [fst snd]; auto.
+  - rewrite bs_advance_spec. destruct (Nat.leb_spec (s_start st + k) (s_end st)); cbn [fst snd]; auto.
+    split; [reflexivity|]. eexists; split; [|reflexivity]. lia.
+  - rewrite bs_advance_to_spec.
+    destruct (Nat.leb_spec (s_start st) p); destruct (Nat.leb_spec p (s_end st)); cbn [andb fst snd]; auto.
+    split; [reflexivity|]. eexists; split; [|reflexivity]. lia.
+  - destruct (bs_get st _ _); cbn [fst snd]; auto.
+Qed.
+
+Lemma stream2_adv_to input st r p : bs_stream2 input st r -> bs_stream2 input (adv_to st p) r.
+Proof. intros S. exact S. Qed.
+
+(* every op keeps the stream view, for any buffer contents *)
+Theorem bs_step_keeps_stream input st r o :
+  bs_inv st -> bs_stream2 input st r ->
+  bs_stream2 input (step_st (bs_step st r o)) (snd (bs_step st r o)).
+Proof.
+  intros H S. destruct o as [scr|k|k|i j|k|p|i j];
+    try (match goal with |- context [bs_step st r ?o] =>
+           destruct (bs_step_nonfill st r o H) as (Er & q & _ & Es); rewrite Er, Es; apply stream2_adv_to; exact S end).
+  unfold step_st. cbn [bs_step].
+  pose proof (bs_fill_buf_refines st r scr H) as R.
+  pose proof (fill_buf_preserves input (abs_of st) r (stream2_stream input st r H S)) as P.
+  destruct (bs_fill_buf st r scr) as [n st' r'|st' r'|st' r'|s]; cbn [fst snd].
+  - destruct R as (R1 & R2 & R3 & R4 & R5). rewrite R1 in P. destruct P as (P1 & _).
+    destruct (fill_early st); [destruct R5 as [-> ->]; exact S|]. apply stream_stream2; assumption.
+  - destruct R as (R1 & R2 & R3 & R4 & R5 & R6). rewrite R1 in P. destruct P as (P1 & _). apply stream_stream2; assumption.
+  - destruct R as (R1 & -> & R3 & ->). exact S.
+  - contradiction.
+Qed.
+
+(* what every non-crash observation shows *)
+Lemma bs_step_obs st r o :
+  bs_inv st ->
+  let ob := fst (fst (bs_step st r o)) in let st' := step_st (bs_step st r o) in
+  is_crash_obs ob = false -> o_win ob = window st' /\ o_pos ob = bs_position st' /\ o_consumed ob = s_start st'.
+Proof.
+  intros H. destruct (bs_step_refines st r o H) as (_ & Hi & _). unfold step_st in *.
+  assert (K : forall ev st', bs_inv st' -> o_win (bs_observe ev st') = window st' /\ o_pos (bs_observe ev st') = bs_position st' /\
+                                        o_consumed (bs_observe ev st') = s_start st')
+    by (intros ev st' Hi'; rewrite (bs_observe_abs ev st' Hi'); auto).
+  destruct o as [scr|k|k|i j|k|p|i j]; cbn [bs_step] in *; cbv zeta.
+  - destruct (bs_fill_buf st r scr); cbn [fst snd] in *; try (intros _; apply K; assumption). discriminate.
+  - destruct (bs_window_len st); cbn [fst snd] in *; try discriminate.
+    destruct (bs_advance st _); cbn [fst snd] in *; try discriminate. intros _; apply K; assumption.
+  - destruct (bs_window_len st); cbn [fst snd] in *; try discriminate.
+    destruct (bs_advance_to st _); cbn [fst snd] in *; try discriminate. intros _; apply K; assumption.
+  - destruct (bs_get st _ _); cbn [fst snd] in *; try discriminate. intros _; apply K; assumption.
+  - destruct (bs_advance st _); cbn [fst snd] in *; try discriminate. intros _; apply K; assumption.
+  - destruct (bs_advance_to st _); cbn [fst snd] in *; try discriminate. intros _; apply K; assumption.
+  - destruct (bs_get st _ _); cbn [fst snd] in *; try discriminate. intros _; apply K; assumption.
+Qed.
+
+(* the law of one observation over the stream [input] *)
+Definition obs_on_stream (input : bytes) (ob : obs) : Prop :=
+  o_win ob = segment input (o_pos ob) (length (o_win ob)) /\
+  o_pos ob + length (o_win ob) <= length input /\ o_consumed ob <= o_pos ob.
+
+Theorem bs_step_stream_law input st r o :
+  bs_inv st -> bs_stream2 input st r ->
+  is_crash_obs (fst (fst (bs_step st r o))) = false -> obs_on_stream input (fst (fst (bs_step st r o))).
+Proof.
+  intros H S NC. destruct (bs_step_obs st r o H NC) as (E1 & E2 & E3).
+  destruct (bs_step_refines st r o H) as (_ & Hi & _).
+  pose proof (bs_step_keeps_stream input st r o H S) as S'.
+  destruct (bs_window_stream_law input _ _ Hi S') as (W1 & W2).
+  unfold obs_on_stream. rewrite E1, E2, E3. split; [exact W1|]. split; [lia|]. unfold bs_position, bs_consumed_data. lia.
+Qed.
+
+(* ... and of a whole run over a window built on ANY buffer: every window shown is the slice of the
+   stream at the position shown -- never a stale byte, never a byte twice, never a gap *)
+Theorem bs_run_stream_law_inv input st r ops :
+  bs_inv st -> bs_stream2 input st r ->
+  Forall (fun ob => is_crash_obs ob = false -> obs_on_stream input ob) (bs_run st r ops).
+Proof.
+  revert st r. induction ops as [|o ops IH]; intros st r H S; [constructor|].
+  cbn [bs_run]. pose proof (bs_step_stream_law input st r o H S) as L.
+  pose proof (bs_step_keeps_stream input st r o H S) as S'.
+  destruct (bs_step_refines st r o H) as (_ & Hi & _). unfold step_st in *.
+  destruct (bs_step st r o) as [[ob st'] r']. cbn [fst snd] in *.
+  destruct (is_crash_obs ob) eqn:C.
+  - constructor; [intros X; cbv beta in X; congruence|constructor].
+  - constructor; [intros _; apply L; reflexivity|apply IH; assumption].
+Qed.
+
+Theorem bs_run_stream_law buf input sched ops :
+  Forall (fun ob => is_crash_obs ob = false -> obs_on_stream input ob)
+         (bs_run (bs_build buf) (mkrd input sched 0 0) ops).
+Proof. apply bs_run_stream_law_inv; [apply bs_build_inv|apply stream2_build]. Qed.
+
+(* position() + window_len() = bytes the Read has delivered *)
+Definition bs_fill_inv (st : store) (r : rd) : Prop := bs_position st + (s_end st - s_start st) = delivered r.
+
+Theorem bs_step_keeps_delivered st r o :
+  bs_inv st -> bs_fill_inv st r -> bs_fill_inv (step_st (bs_step st r o)) (snd (bs_step st r o)).
+Proof.
+  intros H F. pose proof H as [Hs He]. destruct o as [scr|k|k|i j|k|p|i j];
+    try (match goal with |- context [bs_step st r ?o] =>
+           destruct (bs_step_nonfill st r o H) as (Er & q & Hq & Es); rewrite Er, Es;
+           unfold bs_fill_inv, bs_position, bs_consumed_data, adv_to in *; cbn [s_start s_end s_prior]; lia end).
+  unfold step_st. cbn [bs_step].
+  pose proof (bs_fill_buf_refines st r scr H) as R.
+  assert (FA : fill_inv (abs_of st) r)
+    by (unfold fill_inv; cbn [win abs_of]; rewrite (window_length st H), <- bs_position_abs; exact F).
+  pose proof (fill_inv_preserved (abs_of st) r FA) as P.
+  assert (K : forall st' r', bs_inv st' -> fill_inv (abs_of st') r' -> bs_fill_inv st' r')
+    by (intros st' r' Hi' Q; unfold fill_inv in Q; cbn [win abs_of] in Q; rewrite (window_length st' Hi'), <- bs_position_abs in Q; exact Q).
+  destruct (bs_fill_buf st r scr) as [n st' r'|st' r'|st' r'|s]; cbn [fst snd].
+  - destruct R as (R1 & R2 & _). rewrite R1 in P. apply K; assumption.
+  - destruct R as (R1 & R2 & _). rewrite R1 in P. apply K; assumption.
+  - destruct R as (R1 & -> & _ & ->). exact F.
+  - contradiction.
 Qed.
